@@ -15,7 +15,8 @@ from replicat.backends.base import Backend
 
 
 class Spy(Backend, short_name='vfspy'):
-    def __init__(self, connection_string, *, token, region='built-in-region', retries=3, verify=True, label=None):
+    def __init__(self, connection_string, *, token: str, region: str = 'built-in-region', retries: int = 3,
+                 verify: bool = True, label=None, account: str = None, port: int = 8080):
         pass
 
     async def exists(self, name): return False
@@ -117,6 +118,13 @@ def options(scratch):
         Opt('label', 'ctor', ('cli', 'env', 'profile', 'default'),
             {'cli': ('none', None), 'env': ('l-env', 'l-env'), 'profile': ('l-profile', 'l-profile'), 'default': ('none', None)}, None,
             'label', cli=lambda v: ['--label', v], env='VFSPY_LABEL'),
+        # annotated parameters whose spelling looks like another type: every source must coerce alike
+        Opt('account', 'ctor', ('cli', 'env', 'profile', 'default'),
+            {'cli': ('12345', 12345), 'env': ('23456', 23456), 'profile': (34567, 34567), 'default': ('45678', 45678)}, None, 'account',
+            cli=lambda v: ['--account', v], env='VFSPY_ACCOUNT'),
+        Opt('port', 'ctor', ('cli', 'env', 'profile', 'default'),
+            {'cli': ('none', None), 'env': ('None', None), 'profile': ('none', None), 'default': (9000, 9000)}, 8080, 'port',
+            cli=lambda v: ['--port', v], env='VFSPY_PORT'),
         # the same through a backend derived from another one, and through built-in backends
         Opt('derived.token', 'ctor', ('cli', 'env', 'profile', 'default'),
             {'cli': ('t-cli', 't-cli'), 'env': ('t-env', 't-env'), 'profile': ('t-profile', 't-profile'), 'default': ('t-default', 't-default')},
